@@ -141,7 +141,10 @@ def check_trigger(repo, rep):
                 clock = Clock()
 
                 def mk(dec):
-                    it = Interp(repo, stubs=W.base_stubs(), samples=[dict(smp)], nonneg={"P", "E", "lev", "cp", "f", "Wt"}, decisions=dec)
+                    # two wallets: a comfortable one, and one that holds exactly the position's margin (all-in): the liquidation then
+                    # takes the wallet below zero by the fee - the loss is booked in full all the same
+                    it = Interp(repo, stubs=W.base_stubs(), samples=[dict(smp), dict(smp, Wt=smp["P"] * smp["E"] / smp["lev"])],
+                                nonneg={"P", "E", "lev", "cp", "f", "Wt"}, decisions=dec)
                     w = build_cycle_world(repo, it, clock)
                     pos, ex = w["pos"], w["ex"]
                     pos.attrs.update({"qty": R.const(sg) * A("P"), "entry_price": A("E"), "opened_at": A("t0"), "_liquidation_price": None})
